@@ -33,4 +33,31 @@ v("c09-n-limit-gt0", "C09", "none", [(ITER, "if i == limit && limit != 0 {", "if
 v("c09-n-engine-literal-order", "C09", "none", [("storage/engine.go", "\t\t\tKvs:    s.Kvs,\n\t\t\tMore:   s.More,\n\t\t\tCount:  s.Count,", "\t\t\tCount:  s.Count,\n\t\t\tKvs:    s.Kvs,\n\t\t\tMore:   s.More,")])
 v("c09-n-first-into-var", "C09", "none", [(ITER, "if !piter.First() {", "if ok := piter.First(); !ok {")])
 
+# ---------------- C01 ----------------
+PUT = "storage/table/fsm/command_put.go"; DEL = "storage/table/fsm/command_delete.go"; CMD = "storage/table/fsm/command.go"
+FSM = "storage/table/fsm/fsm.go"; TXN = "storage/table/fsm/command_txn.go"; QRY = "storage/table/fsm/query.go"
+v("c01-put-prev-reads-db", "C01", "C01.d", [(PUT, "singleLookup(ctx.batch, &regattapb.RequestOp_Range{Key: put.Key})", "singleLookup(ctx.db, &regattapb.RequestOp_Range{Key: put.Key})")])
+v("c01-rangedelete-no-ensure-indexed", "C01", "C01.d", [(DEL, "\t\t\tif err := ctx.EnsureIndexed(); err != nil {\n\t\t\t\treturn nil, err\n\t\t\t}\n\t\t\trng, err := rangeLookup(", "\t\t\trng, err := rangeLookup(")])
+v("c01-index-written-to-db", "C01", "C01.a", [(CMD, "c.batch.Set(sysLocalIndex, idx, nil)", "c.db.Set(sysLocalIndex, idx, nil)")])
+v("c01-wildcard-bound-in-place", "C01", "C01.f", [(DEL, "end = make([]byte, len(maxUserKey))\n\t\t\tcopy(end, maxUserKey)\n\t\t\tend = incrementRightmostByte(end)", "end = incrementRightmostByte(maxUserKey)")])
+v("c01-bookkeeping-key-user-type", "C01", "C01.f", [(FSM, "sysLocalIndex = mustEncodeKey(key.Key{\n\t\tKeyType: key.TypeSystem,", "sysLocalIndex = mustEncodeKey(key.Key{\n\t\tKeyType: key.TypeUser,")])
+v("c01-single-lookup-seekge", "C01", "C01.g", [(QRY, "iter.SeekPrefixGE(keyBuf.Bytes())", "iter.SeekGE(keyBuf.Bytes())")])
+v("c01-no-commit", "C01", "C01.b", [(FSM, "\tif err := ctx.Commit(); err != nil {\n\t\treturn nil, err\n\t}\n", "")])
+v("c01-commit-inside-sequence", "C01", "C01.b", [("storage/table/fsm/command_sequence.go", "\treturn ResultSuccess, res, nil\n}", "\t_ = ctx.Commit()\n\treturn ResultSuccess, res, nil\n}")])
+v("c01-index-plus-one", "C01", "C01.c", [(CMD, "binary.LittleEndian.PutUint64(idx, c.index)", "binary.LittleEndian.PutUint64(idx, c.index+1)")])
+v("c01-index-from-term", "C01", "C01.c", [(CMD, "c.index = entry.Index", "c.index = uint64(len(entry.Cmd))")])
+v("c01-ensure-indexed-drops-old", "C01", "C01.d", [(CMD, "\tif err := indexed.Apply(c.batch, nil); err != nil {\n\t\treturn err\n\t}\n", "")])
+v("c01-put-write-before-prev-read", "C01", "C01.e", [(PUT, "\tif put.PrevKv {\n\t\tif err := ctx.EnsureIndexed()", "\tif err := ctx.batch.Set(keyBuf.Bytes(), put.Value, nil); err != nil {\n\t\treturn nil, err\n\t}\n\tif put.PrevKv {\n\t\tif err := ctx.EnsureIndexed()"), (PUT, "\tif err := ctx.batch.Set(keyBuf.Bytes(), put.Value, nil); err != nil {\n\t\treturn nil, err\n\t}\n\treturn resp, nil", "\treturn resp, nil")])
+v("c01-put-raw-key", "C01", "C01.f", [(PUT, "ctx.batch.Set(keyBuf.Bytes(), put.Value, nil)", "ctx.batch.Set(put.Key, put.Value, nil)")])
+v("c01-wildcard-unbounded", "C01", "C01.g", [("storage/table/fsm/iter.go", "iterOptions.UpperBound = make([]byte, len(maxUserKey))\n\t\tcopy(iterOptions.UpperBound, maxUserKey)\n\t\titerOptions.UpperBound = incrementRightmostByte(iterOptions.UpperBound)", "_ = maxUserKey")])
+v("c01-dispatcher-missing-case", "C01", "C01.h", [(CMD, "\tcase regattapb.Command_SEQUENCE:\n\t\treturn commandSequence{cmd}\n", "")])
+v("c01-wildcard-test-len1", "C01", "C01.g", [("storage/table/fsm/iter.go", "if bytes.Equal(high, wildcard) {", "if len(high) == 1 && !bytes.Equal(high, nil) {")])
+v("c01-txnops-read-db", "C01", "C01.d", [(TXN, "lookup(ctx.batch, o.RequestRange)", "lookup(ctx.db, o.RequestRange)")])
+v("c01-txn-no-ensure-indexed", "C01", "C01.d", [(TXN, "\tif err := ctx.EnsureIndexed(); err != nil {\n\t\treturn false, nil, err\n\t}\n", "")])
+v("c01-delete-key-from-rangeend", "C01", "C01.f", [(DEL, "if err := ctx.batch.Delete(keyBuf.Bytes(), nil); err != nil {", "if err := ctx.batch.Delete(del.Key, nil); err != nil {")])
+v("c01-n-encode-after-prev-read", "C01", "none", [(PUT, "\tif err := encodeUserKey(keyBuf, put.Key); err != nil {\n\t\treturn nil, err\n\t}\n\tif put.PrevKv {", "\tif put.PrevKv {"), (PUT, "\tif err := ctx.batch.Set(keyBuf.Bytes(), put.Value, nil); err != nil {", "\tif err := encodeUserKey(keyBuf, put.Key); err != nil {\n\t\treturn nil, err\n\t}\n\tif err := ctx.batch.Set(keyBuf.Bytes(), put.Value, nil); err != nil {")])
+v("c01-n-commit-via-local", "C01", "none", [(CMD, "\treturn c.batch.Commit(pebble.NoSync)", "\tb := c.batch\n\treturn b.Commit(pebble.NoSync)")])
+v("c01-n-commit-err-var", "C01", "none", [(FSM, "\tif err := ctx.Commit(); err != nil {\n\t\treturn nil, err\n\t}", "\terr := ctx.Commit()\n\tif err != nil {\n\t\treturn nil, err\n\t}")])
+v("c01-n-range-loop-update", "C01", "none", [(FSM, "\tfor i := 0; i < len(updates); i++ {\n\t\tcmd, err := parseCommand(ctx, updates[i])", "\tfor i := range updates {\n\t\tcmd, err := parseCommand(ctx, updates[i])")])
+
 json.dump(V, sys.stdout, indent=1)
